@@ -29,6 +29,7 @@ VARIABLES tid, i, base, viol
 vars == <<tid, i, base, viol>>
 
 One == 1000000000
+NotANumber == 1 - Inf               \* projection of NaN (harness.propagation_util.NAN_UDB)
 N(e) == Len(e.f)
 Chans(e) == [k \in 1..N(e) |-> [f |-> e.f[k], w |-> e.w[k], b |-> e.b[k], label |-> e.lab[k]]]
 Req(t) == [k \in 1..Len(t.req) |-> [f |-> t.req[k][1], w |-> t.req[k][2], b |-> t.req[k][3], label |-> t.req[k][4]]]
@@ -98,8 +99,9 @@ Where(p, e) == IF p.f = e.f THEN [k \in 1..N(e) |-> k]
 Quality(p, e) ==
     LET w == Where(p, e)
         K == {k \in 1..N(e) : w[k] # 0}
-        Same(x, y) == Within(x, y, TolUdb)
-        NotHigher(x, y) == x <= y + TolUdb
+        \* a figure that is not a number (NotANumber: the dB value of a negative ratio) is neither kept nor lowered
+        Same(x, y) == x # NotANumber /\ Within(x, y, TolUdb)
+        NotHigher(x, y) == x # NotANumber /\ x <= y + TolUdb
     IN  (IF GrammarOk(e) THEN {} ELSE {"OpGrammar"})
    \cup (IF \E k \in K : ~NotHigher(e.gsnr[k], p.gsnr[w[k]]) THEN {"NeverImprovesGsnr"} ELSE {})
    \cup (IF \E k \in K : ~NotHigher(e.osnr[k], p.osnr[w[k]]) THEN {"NeverImprovesOsnr"} ELSE {})
